@@ -272,11 +272,12 @@ def container_boxes(ctx, world):
                 n += 1
                 ok = False
                 if fn is not None:
-                    e = _ret_expr(fn)
-                    if isinstance(e, ast.Call):
-                        f = world.repo.resolve_expr(m, e.func)
-                        ps = [a.arg for a in fn.args.args]
-                        ok = f is not None and f.qual == f"autograd.builtins.{prim}" and len(e.args) == 2 and isinstance(e.args[0], ast.Name) and e.args[0].id == ps[0] and isinstance(e.args[1], ast.Starred) and isinstance(e.args[1].value, ast.Name) and e.args[1].value.id == ps[1]
+                    from ..tutil import expand as _ex, unseq as _us
+
+                    r_, sy_, m_, fn_, sc_ = eval_function(world, "autograd.builtins", f"SequenceBox.{meth}")
+                    e = _us(_ex(world.ev, r_, {f"autograd.builtins.{prim}"})) if r_ is not None else None
+                    if e is not None and is_call_to(e, f"autograd.builtins.{prim}"):
+                        ok = len(e.args) == 2 and not e.kw and e.args[0] is sy_["#0"] and e.args[1].op == "star" and e.args[1].x is sy_["#1"]
                 _okfail(ctx, "A14.containers", f"SequenceBox.{meth}", ok, loc_of(m, fn) if fn else loc_of(m, cls), f"SequenceBox.{meth} is not {prim}(self, *other)", "traced_tuple + (a, b) / (a, b) + traced_tuple", construct=f"autograd.builtins.SequenceBox.{meth}")
     ctx.floor("A14.containers methods", n, 14)
 
